@@ -1,5 +1,6 @@
 """C17 - model caches are transparent, also after interrupted or racing writes."""
 import ast
+import re
 
 from .. import pm
 from ..pm import U
@@ -9,7 +10,7 @@ TECHNIQUE = (
     'static analysis: sibling agreement of cache-path expressions (after definition substitution), CFG dominance of the version guard, publish-after-conversion ordering in the loader, guard facts for the lazy mode, dead-store check for the path-keyed in-process cache, atomic-publish / tolerant-read pattern check for both cache locations, exception-escape check of directory creation (check-then-create race) ; read-to-update must-reach analysis (with emptiness facts) of a streaming hash helper'
 )
 EXPLANATION = (
-    "R1: reader (_get_cached) and writer (_write_in_cache) derive the companion and home cache paths by the same expressions from a digest of the file's bytes; the digest covers ALL bytes: either hashlib.<algo>(<whole content>) in one expression or a helper in which every block obtained from <file>.read(...) reaches <hash>.update(block) on every CFG path before it is overwritten or the function ends, unless a branch has established that the block is empty. R2: every value returned from the cache reader is dominated by the internal_version == INTERNAL_VERSION test and the loader stamps that constant before publishing. R3: in the loader's building branch no store into self._data follows the cache write. R4: cache read, cache write and in-process cache accesses are all guarded by `not lazy`. R5: a value read from the path-keyed in-process cache reaches the object's state only if it is overwritten (dead) or re-validated against the content hash on every path. R6: for both cache locations either atomic publish (dump to a name that is not the final one and is unique per process, then os.replace onto the final name) or tolerant read (pickle.load inside a handler that falls back to rebuilding) holds. R7: every directory creation reachable from the cache writer passes exist_ok=True or sits in a handler for FileExistsError/OSError (a check-then-create sequence is a race between cold-starting processes)."
+    "R1: reader (_get_cached) and writer (_write_in_cache) derive the companion and home cache paths by the same expressions from a digest of the file's bytes; the digest covers ALL bytes: either hashlib.<algo>(<whole content>) in one expression or a helper in which every block obtained from <file>.read(...) reaches <hash>.update(block) on every CFG path before it is overwritten or the function ends, unless a branch has established that the block is empty. R2: every value returned from the cache reader is dominated by the internal_version == INTERNAL_VERSION test and the loader stamps that constant before publishing. R3: in the loader's building branch no store into self._data follows the cache write. R4: cache read, cache write and in-process cache accesses are all guarded by `not lazy`. R5: a value read from the path-keyed in-process cache reaches the object's state only if it is overwritten (dead) or re-validated against the content hash on every path. R6: for both cache locations the read is tolerant - pickle.load inside a handler that falls back to rebuilding and covers at least UnpicklingError/PickleError AND EOFError (0-byte file, header only, cut at a frame boundary) - or the publish is atomic AND durable (unique temporary name, fsync, os.replace); atomic publish without fsync is credited but not sufficient, because after a machine crash the rename can be on disk before the data. R7: every directory creation reachable from the cache writer passes exist_ok=True or sits in a handler for FileExistsError/OSError (a check-then-create sequence is a race between cold-starting processes)."
 )
 NOT_DECIDED = "Actual crash points, interleavings of racing processes and directory-permission scenarios (behavioural)."
 ASSUMPTIONS = [
@@ -467,16 +468,26 @@ def run(ctx):
         return out
 
     def tolerant(f, call):
+        """(True, '') when every exception an incomplete pickle can raise falls back to rebuilding; else (False, what escapes)"""
         tr = [n for n in ast.walk(f.node) if isinstance(n, ast.Try) and any(C.in_subtree(call, s) for s in n.body)]
+        why = "pickle.load is not inside a try block"
         for t in tr:
+            caught = set()
             for h in t.handlers:
                 names = U(h.type) if h.type is not None else "BaseException"
-                broad = any(x in names for x in ("Exception", "BaseException")) or (
-                    "UnpicklingError" in names and "EOFError" in names)
-                reraises = any(isinstance(s, ast.Raise) for s in ast.walk(h))
-                if broad and not reraises:
-                    return True
-        return False
+                if any(isinstance(s, ast.Raise) for s in ast.walk(h)):
+                    continue
+                caught |= set(re.findall(r"[A-Za-z_][A-Za-z_0-9]*", names))
+            if caught & {"Exception", "BaseException"}:
+                return True, ""
+            need = {"EOFError": "a 0-byte file, a file holding only the protocol header, a file cut exactly at a frame boundary",
+                    "UnpicklingError": "a file cut in mid-stream"}
+            missing = [k for k in need if k not in caught and not (k == "UnpicklingError" and "PickleError" in caught)]
+            if not missing:
+                return True, ""
+            why = "the handler catches %s; %s" % (sorted(caught), "; ".join(
+                "%s (%s) escapes" % (k, need[k]) for k in missing))
+        return False, why
 
     def dumps_of(f, var, depth=2):
         out = []
@@ -526,19 +537,28 @@ def run(ctx):
             continue
         lds = loads_of(rd, rv)
         dps = dumps_of(wr, wv)
-        tol = bool(lds) and all(tolerant(f, c) for f, c in lds)
+        tres = [tolerant(f, c) for f, c in lds]
+        tol = bool(lds) and all(t for t, _ in tres)
+        twhy = "; ".join(w for t, w in tres if not t)
         at_res = [atomic(f, c, w, var) for f, c, w, var in dps]
         ato = bool(dps) and all(a for a, _ in at_res)
         why = "; ".join(r for _, r in at_res)
-        if tol or ato:
+        durable = ato and all(C.calls_to(f.node, "os.fsync", "fsync") for f, c, w, var in dps)
+        if tol or durable:
             ctx.ok("R6", "%s cache: %s%s" % (role, "tolerant read" if tol else "", (" + " if tol and ato else "") + (
                 "atomic publish (" + why + ")" if ato else "")), rd.where())
+        elif ato:
+            ctx.bad("R6", "%s cache" % role, rd.where(lds[0][1]) if lds else rd.where(),
+                    "the %s cache is published atomically (%s) but read intolerantly: %s. The temporary file is renamed without an "
+                    "fsync, so after a machine crash the rename can be on disk while the data is not - a cache file of 0 bytes or "
+                    "cut at a block boundary; every later run then fails in pickle.load instead of rebuilding the model"
+                    % (role, why, twhy), "MachineModel", "%s cache crash tolerance" % role)
         else:
             ctx.bad("R6", "%s cache" % role, wr.where(),
                     "the %s cache file is written in place (%s) and read without a handler that falls back to "
-                    "rebuilding (%d unguarded pickle.load): a write interrupted at any point, or a second process "
+                    "rebuilding (%s): a write interrupted at any point, or a second process "
                     "starting meanwhile, leaves a file that makes every later run fail" % (
-                        role, why or "no dump found", len([1 for f, c in lds if not tolerant(f, c)])),
+                        role, why or "no dump found", twhy),
                     "MachineModel", "%s cache crash tolerance" % role)
         ctx.extra.setdefault("crash_tolerance", {})[role] = {"tolerant_read": tol, "atomic_publish": ato, "detail": why}
     ctx.floor("R6", "cache locations examined", len(ctx.extra.get("crash_tolerance", {})), 2)
